@@ -11,6 +11,12 @@
 //!   retention   a blob store of its own, random timestamp lists with ties, random counts.
 //!   store_raw   a bare `TensorStore`: plain / `_cache:` / `emb:`(+`_embedding`) keys,
 //!               `snapshot_bytes` / `restore_from_bytes` only.
+//!   autoret     auto-checkpoints AT the retention limit: `max_checkpoints` 1..4 (sometimes the default
+//!               10), the listing filled to (about) the limit with harness-clock checkpoints, then
+//!               destructive statements through the router text API (`CheckpointManager::create_auto`,
+//!               wall clock = strictly newer than every harness-clock one) and real `CHECKPOINT`
+//!               statements (`CheckpointManager::create`) interleaved with data statements, rollbacks,
+//!               deletes, `CHECKPOINTS LIMIT n` and the FULL listing `list(None)`.
 //!   witness     the model's Lean witnesses replayed on the real code, and the directed regression
 //!               cases of repaired defects (id shadowed by a name: /repo fff752bd on the rollback
 //!               path, 14af22de on the delete path) — all run first.
@@ -73,6 +79,11 @@ enum Op {
     TDel(u64, i64),
     TNodeDel(u64),
     TEmbDel(u64),
+    /// `CHECKPOINT '<name>'` through the router text API = the real `CheckpointManager::create`
+    /// (wall clock) in a stream whose `Ckpt` goes by the harness clock
+    CkptReal(Option<u64>),
+    /// the FULL listing: `CheckpointManager::list(None)` (the `CHECKPOINTS` statement shows 10 at most)
+    CkAll,
 }
 
 /// ids and names are strings of one space, coded for the model: code < 1000 = the id string of
@@ -115,6 +126,8 @@ impl Op {
             Op::TDel(..) => "text_delete",
             Op::TNodeDel(_) => "text_node_delete",
             Op::TEmbDel(_) => "text_embed_delete",
+            Op::CkptReal(_) => "ckpt_real",
+            Op::CkAll => "ckall",
         }
     }
     /// the model line (checkpoint lines are built by the caller: they need ts / ord)
@@ -146,6 +159,9 @@ impl Op {
             Op::TDel(t, k) => format!("rdel {t} {k}"),
             Op::TNodeDel(i) => format!("gdeln {i}"),
             Op::TEmbDel(k) => format!("vdel {k}"),
+            Op::CkptReal(None) => "ckpt".into(),
+            Op::CkptReal(Some(c)) => format!("ckpt name={c}"),
+            Op::CkAll => "ckall".into(),
         }
     }
 }
@@ -338,7 +354,7 @@ impl Sys {
                 #[allow(unreachable_patterns)]
                 Err(e) => format!("err other:{e:?}"),
             },
-            Op::Ckpt(_) | Op::Rollback(_) | Op::CkDel(_) | Op::CkTop(_) | Op::TDel(..) | Op::TNodeDel(_) | Op::TEmbDel(_) => {
+            Op::Ckpt(_) | Op::CkptReal(_) | Op::CkAll | Op::Rollback(_) | Op::CkDel(_) | Op::CkTop(_) | Op::TDel(..) | Op::TNodeDel(_) | Op::TEmbDel(_) => {
                 unreachable!("handled by the stream")
             }
         }
@@ -503,6 +519,19 @@ impl Sys {
             .unwrap_or_default()
     }
 
+    /// the FULL listing through the manager's own API, `CheckpointManager::list(None)`, newest
+    /// first: (real id, name, created_at)
+    fn list_all(&self) -> Result<Vec<(String, String, u64)>, String> {
+        let mgr = self.router.checkpoint().expect("checkpoint manager").clone();
+        self.rt
+            .block_on(async {
+                let m = mgr.lock().await;
+                m.list(None).await
+            })
+            .map(|l| l.into_iter().map(|c| (c.id, c.name, c.created_at)).collect())
+            .map_err(|e| e.to_string())
+    }
+
     /// the string a target / name code stands for
     fn code_str(&self, code: u64) -> String {
         if code == AUTO_DELETE {
@@ -528,14 +557,18 @@ impl Sys {
             Ok(QueryResult::Value(s)) => {
                 let id = s.rsplit(' ').next().unwrap_or("").to_string();
                 let blob = self.router.blob().expect("blob").clone();
-                let real_ts = self
+                let listed = self
                     .rt
                     .block_on(async {
                         let b = blob.lock().await;
                         CheckpointStorage::list(&b).await
                     })
-                    .ok()
-                    .and_then(|l| l.iter().find(|c| c.id == id).map(|c| c.created_at));
+                    .unwrap_or_default();
+                // not listed = retention evicted it at once, which takes a created_at tie with
+                // everything kept: its timestamp is the newest listed one
+                let real_ts = listed.iter().find(|c| c.id == id).map(|c| c.created_at).or_else(|| {
+                    if listed.len() >= self.max { listed.iter().map(|c| c.created_at).max() } else { None }
+                });
                 self.ck_real.insert(n, id);
                 self.ck_meta.insert(n, (name, real_ts.unwrap_or(ts)));
                 (n, format!("id {n}"))
@@ -607,6 +640,18 @@ impl Sys {
     /// `CHECKPOINTS LIMIT n` through the router text API: model ids in the order answered
     fn cktop(&self, n: u64) -> Result<Vec<u64>, String> {
         match self.router.execute_parsed(&format!("CHECKPOINTS LIMIT {n}")) {
+            Ok(QueryResult::CheckpointList(l)) => {
+                let rev: HashMap<&String, u64> = self.ck_real.iter().map(|(k, v)| (v, *k)).collect();
+                l.iter().map(|c| rev.get(&c.id).copied().ok_or_else(|| format!("unknown id {}", c.id))).collect()
+            }
+            Ok(other) => Err(format!("other:{other:?}")),
+            Err(e) => Err(format!("{e}")),
+        }
+    }
+
+    /// `CHECKPOINTS` (no LIMIT) through the router text API: model ids in the order answered
+    fn cktop_default(&self) -> Result<Vec<u64>, String> {
+        match self.router.execute_parsed("CHECKPOINTS") {
             Ok(QueryResult::CheckpointList(l)) => {
                 let rev: HashMap<&String, u64> = self.ck_real.iter().map(|(k, v)| (v, *k)).collect();
                 l.iter().map(|c| rev.get(&c.id).copied().ok_or_else(|| format!("unknown id {}", c.id))).collect()
@@ -999,13 +1044,75 @@ impl Ctx {
     }
 }
 
+fn wall_secs() -> u64 {
+    std::time::SystemTime::now().duration_since(std::time::UNIX_EPOCH).map(|d| d.as_secs()).unwrap_or(0)
+}
+
+/// Retention as a creation path applies it, judged on the real listing alone: `live_before` were
+/// listed, checkpoint number `n` was made, `kept` are listed now.  Exactly min(before + 1, max) are
+/// kept; nothing dropped has a later created_at than something kept (an EQUAL created_at with the
+/// later-made one dropped is the known tie finding — and only that); every kept one loads.
+#[allow(clippy::too_many_arguments)]
+fn retention_after_create(ctx: &mut Ctx, sys: &Sys, stream: &str, site: &str, max: usize, live_before: &[u64], n: u64, kept: &[u64], trace: &[String], tss: &[u64], stmt: &str) -> bool {
+    let mut violated = false;
+    let mut total: Vec<u64> = live_before.to_vec();
+    total.push(n);
+    let dropped: Vec<u64> = total.iter().copied().filter(|i| !kept.contains(i)).collect();
+    let want = total.len().min(max);
+    let ts_of = |i: &u64| sys.ck_meta.get(i).map(|m| m.1).unwrap_or(0);
+    let input = json!({"stream": stream, "max": max, "ops": trace, "statement": stmt, "ts": tss, "listed_before": live_before, "made": n, "listed_after": kept, "dropped": dropped,
+        "created_at": total.iter().map(|i| (i.to_string(), json!(ts_of(i)))).collect::<serde_json::Map<String, serde_json::Value>>()});
+    if kept.len() != want || kept.iter().any(|k| !total.contains(k)) {
+        violated = true;
+        ctx.violation(
+            &format!("{site}/wrong_count"),
+            &format!("{} checkpoints were listed (max_checkpoints = {max}), statement {stmt} made one more: {} are listed afterwards, retention must leave min(listed + 1, max) = {want} of them", live_before.len(), kept.len()),
+            input.clone(),
+        );
+    }
+    for d in &dropped {
+        for k in kept {
+            if ts_of(d) > ts_of(k) {
+                violated = true;
+                ctx.violation(
+                    &format!("{site}/newer_dropped_older_kept"),
+                    &format!("retention deleted checkpoint number {d} (created_at {}) and kept number {k} (created_at {})", ts_of(d), ts_of(k)),
+                    input.clone(),
+                );
+            } else if ts_of(d) == ts_of(k) && d > k {
+                violated = true;
+                ctx.violation(
+                    TIE_CLASS,
+                    &format!("retention kept checkpoint c{k} and deleted the later-created c{d} (equal created_at seconds; list order of ties is the blob tag scan's hash order)"),
+                    input.clone(),
+                );
+            }
+        }
+    }
+    for k in kept {
+        if !sys.loadable(*k) {
+            violated = true;
+            ctx.violation(&format!("{site}/retained_not_loadable"), &format!("retained checkpoint c{k} cannot be loaded"), input.clone());
+        }
+    }
+    violated
+}
+
 #[derive(Clone, Copy, PartialEq)]
 enum Mode {
     Router,
     Manager,
     /// router statements with auto-checkpoint protection on (destructive statements through the text API)
     Auto,
+    /// auto-checkpoint protection on, small `max_checkpoints`: `Ckpt` by the harness clock (fills
+    /// the listing), `CkptReal` and the destructive text statements by the wall clock
+    AutoRet,
 }
+
+/// site of the creation path a statement went through (violation classes are `<site>/<kind>`)
+const SITE_CREATE: &str = "tensor_checkpoint.manager_create";
+const SITE_CREATE_AUTO: &str = "tensor_checkpoint.manager_create_auto";
+const SITE_RETENTION: &str = "tensor_checkpoint.retention";
 
 struct Gen {
     tables: u64,
@@ -1024,7 +1131,7 @@ fn gen_target(r: &mut Rng, n_ck: u64, mode: Mode) -> u64 {
         r.below(n_ck) // by id
     } else if mode == Mode::Manager && r.chance(1, 4) {
         SHARED_NAMES[r.below(2) as usize]
-    } else if mode == Mode::Auto && r.chance(1, 3) {
+    } else if (mode == Mode::Auto || mode == Mode::AutoRet) && r.chance(1, 3) {
         [AUTO_DELETE, AUTO_NODE_DELETE, AUTO_EMBED_DELETE][r.below(3) as usize]
     } else {
         NAME0 + r.below(n_ck) // by its own name
@@ -1113,7 +1220,7 @@ fn gen_op(r: &mut Rng, g: &mut Gen, n_ck: u64, raw_mix: bool, mode: Mode) -> Op 
 
 /// run one op list on a fresh real system + the model; returns true if everything agreed
 fn run_case(ctx: &mut Ctx, m: &mut Model, stream: &str, mode: Mode, max: usize, ops: &[Op], tss: &[u64], record: bool) -> (bool, bool) {
-    let auto = mode == Mode::Auto;
+    let auto = mode == Mode::Auto || mode == Mode::AutoRet;
     let mut sys = Sys::new_with(max, auto);
     m.ask("reset");
     m.ask(&format!("setmax {max}"));
@@ -1130,7 +1237,10 @@ fn run_case(ctx: &mut Ctx, m: &mut Model, stream: &str, mode: Mode, max: usize, 
             ctx.rep.hit(&format!("op:{}", op.tag()));
         }
         let (imp, model_line) = match op {
-            Op::Ckpt(name) => {
+            Op::Ckpt(name) | Op::CkptReal(name) => {
+                // `real`: the CHECKPOINT statement = CheckpointManager::create (wall clock); otherwise
+                // CheckpointStorage::store + RetentionManager::enforce under the harness clock
+                let real = matches!(op, Op::CkptReal(_)) || mode == Mode::Router || mode == Mode::Auto;
                 // the harness-side snapshot oracle: the real image at checkpoint time
                 let before = sys.image();
                 let td = sys.text_api_diffs(&before);
@@ -1147,8 +1257,10 @@ fn run_case(ctx: &mut Ctx, m: &mut Model, stream: &str, mode: Mode, max: usize, 
                 let ts = tss.get(ck_i).copied().unwrap_or(1000 + ck_i as u64);
                 ck_i += 1;
                 let name = name.unwrap_or(NAME0 + sys.next_ck);
-                let (n, ans) =
-                    if mode != Mode::Manager { sys.checkpoint_router(name, ts) } else { sys.checkpoint_manager(name, ts) };
+                let (n, ans) = if real { sys.checkpoint_router(name, ts) } else { sys.checkpoint_manager(name, ts) };
+                if real && live_before.len() >= max {
+                    ctx.rep.hit("create:at_retention_limit");
+                }
                 oracle.insert(n, before);
                 let live_after = sys.live_ids();
                 // the by_tag order is a hash-set order: reconstruct one consistent with what was kept
@@ -1287,6 +1399,7 @@ fn run_case(ctx: &mut Ctx, m: &mut Model, stream: &str, mode: Mode, max: usize, 
                 // the image BEFORE the destructive statement is what its auto-checkpoint must hold
                 let before = sys.image();
                 let live_before = sys.live_ids();
+                let listed_before = sys.listing();
                 let known: BTreeSet<String> = sys.ck_real.values().cloned().collect();
                 let expect_auto = match op {
                     Op::TDel(t, k) => before
@@ -1302,42 +1415,115 @@ fn run_case(ctx: &mut Ctx, m: &mut Model, stream: &str, mode: Mode, max: usize, 
                     Op::TNodeDel(_) => (AUTO_NODE_DELETE, "auto-before-node-delete"),
                     _ => (AUTO_EMBED_DELETE, "auto-before-embed-delete"),
                 };
+                let at_limit = live_before.len() >= max;
+                if expect_auto && at_limit {
+                    // create_auto with the listing already at max_checkpoints: retention must evict
+                    ctx.rep.hit("auto_checkpoint:at_retention_limit");
+                }
+                let t_before = wall_secs();
                 let ans = sys.text_destructive(op);
+                let listed_after = sys.listing();
                 let fresh: Vec<(String, String, u64)> =
-                    sys.listing().into_iter().filter(|c| !known.contains(&c.0)).collect();
-                if fresh.len() != usize::from(expect_auto) || fresh.iter().any(|c| c.1 != name_s) {
+                    listed_after.iter().filter(|c| !known.contains(&c.0)).cloned().collect();
+                // At the limit, an auto-checkpoint whose created_at second ties with EVERY listed one
+                // can be evicted by its own retention pass at once (known finding
+                // newer_dropped_on_timestamp_tie): then nothing in the listing tells that it was made.
+                // Only in exactly that state (limit reached, listing unchanged, every listed
+                // created_at not older than the clock read before the statement) is a missing
+                // auto-checkpoint not reported; the model is told it was made and dropped.
+                let ids_of = |l: &[(String, String, u64)]| l.iter().map(|c| c.0.clone()).collect::<BTreeSet<String>>();
+                let evicted_at_once = expect_auto
+                    && fresh.is_empty()
+                    && at_limit
+                    && ids_of(&listed_before) == ids_of(&listed_after)
+                    && listed_after.iter().all(|c| c.2 >= t_before);
+                if evicted_at_once {
+                    ctx.rep.hit("auto_checkpoint:evicted_at_once_on_tie");
+                } else if fresh.len() != usize::from(expect_auto) || fresh.iter().any(|c| c.1 != name_s) {
                     violated = true;
                     ctx.violation(
                         "query_router.auto_checkpoint/missing_or_unexpected",
                         &format!("statement {op:?}: auto-checkpoints created {fresh:?}, expected {} named {name_s}", usize::from(expect_auto)),
-                        json!({"stream": stream, "ops": trace.clone(), "op": format!("{op:?}")}),
+                        json!({"stream": stream, "max": max, "ops": trace.clone(), "op": format!("{op:?}"), "ts": tss}),
                     );
                 }
-                if let Some(c) = fresh.first() {
-                    // the model takes the auto-checkpoint as an ordinary named checkpoint
+                let made: Option<(Option<String>, u64)> = if let Some(c) = fresh.first() {
+                    Some((Some(c.0.clone()), c.2))
+                } else if evicted_at_once {
+                    Some((None, listed_after.iter().map(|c| c.2).max().unwrap_or(t_before)))
+                } else {
+                    None
+                };
+                if let Some((real_id, ts_new)) = made {
+                    // the model takes it through `create_auto` (`ackpt`: store, then enforce)
                     let n = sys.next_ck;
                     sys.next_ck += 1;
-                    sys.ck_real.insert(n, c.0.clone());
-                    sys.ck_meta.insert(n, (name, c.2));
+                    if let Some(id) = real_id {
+                        sys.ck_real.insert(n, id);
+                    }
+                    sys.ck_meta.insert(n, (name, ts_new));
                     oracle.insert(n, before);
                     ck_i += 1;
                     let live_after = sys.live_ids();
+                    // retention as create_auto applies it, on the real listing: exactly
+                    // min(listed before + 1, max) listed, nothing dropped that is newer than
+                    // something kept, every retained checkpoint loadable
+                    if retention_after_create(ctx, &sys, stream, SITE_CREATE_AUTO, max, &live_before, n, &live_after, &trace, tss, &format!("{op:?}")) {
+                        violated = true;
+                    }
+                    if at_limit && live_after.contains(&n) && live_after.len() == max {
+                        ctx.rep.hit("auto_checkpoint:evicted_one_at_limit");
+                    }
                     let mut ord = live_after.clone();
                     for i in live_before.iter().chain(std::iter::once(&n)) {
                         if !ord.contains(i) {
                             ord.push(*i);
                         }
                     }
-                    let ck_line = format!("ckpt {} {} {name}", c.2, nats(&ord));
+                    let ck_line = format!("ackpt {ts_new} {} {name}", nats(&ord));
                     trace.push(ck_line.clone());
                     let mo = m.ask(&ck_line);
                     let tr = trace.clone();
-                    if !ctx.rep.compare(stream, || json!({"ops": tr, "what": "auto-checkpoint"}), &format!("id {n}"), &mo) {
+                    if !ctx.rep.compare(stream, || json!({"ops": tr, "max": max, "what": "auto-checkpoint"}), &format!("id {n}"), &mo) {
                         agreed = false;
                     }
                     ctx.rep.hit("auto_checkpoint:created");
                 }
                 (ans, op.line())
+            }
+            Op::CkAll => {
+                let live_before = sys.live_ids();
+                match sys.list_all() {
+                    Ok(all) => {
+                        let rev: HashMap<&String, u64> = sys.ck_real.iter().map(|(k, v)| (v, *k)).collect();
+                        let ids: Vec<u64> = all.iter().filter_map(|c| rev.get(&c.0).copied()).collect();
+                        let mut sorted_ids = ids.clone();
+                        sorted_ids.sort_unstable();
+                        sorted_ids.dedup();
+                        let unknown = all.len() - ids.len();
+                        let newest_first = all.windows(2).all(|w| w[0].2 >= w[1].2);
+                        let not_loadable: Vec<u64> = ids.iter().copied().filter(|k| !sys.loadable(*k)).collect();
+                        // the CHECKPOINTS statement without LIMIT: the first min(10, n) of the listing
+                        let shown = sys.cktop_default();
+                        let shown_bad = match &shown {
+                            Ok(l) => l.len() != all.len().min(10) || l.iter().any(|i| !ids.contains(i)),
+                            Err(_) => true,
+                        };
+                        if unknown > 0 || sorted_ids != live_before || sorted_ids.len() != ids.len() || !newest_first || !not_loadable.is_empty() || shown_bad {
+                            violated = true;
+                            ctx.violation(
+                                "tensor_checkpoint.manager_list/full_listing_wrong",
+                                &format!("CheckpointManager::list(None) answered {:?} (checkpoint numbers {ids:?}, {unknown} unknown) with {live_before:?} stored: every stored checkpoint once, newest first, each loadable (not loadable: {not_loadable:?}); CHECKPOINTS without LIMIT answered {shown:?}", all.iter().map(|c| (&c.1, c.2)).collect::<Vec<_>>()),
+                                json!({"stream": stream, "max": max, "ops": trace.clone(), "ts": tss}),
+                            );
+                        }
+                        if all.len() == max {
+                            ctx.rep.hit("ckall:at_retention_limit");
+                        }
+                        (nats(&ids), format!("ckall {}", nats(&ids)))
+                    }
+                    Err(e) => (format!("err other:{e}"), "ckall -".into()),
+                }
             }
             Op::Rollback(code) => {
                 let live_before = sys.live_ids();
@@ -1491,6 +1677,33 @@ fn run_case(ctx: &mut Ctx, m: &mut Model, stream: &str, mode: Mode, max: usize, 
             ctx.rep.hit(&format!("res:{tag}"));
         }
         trace.push(model_line.clone());
+        // the retention bound on the FULL listing (`CheckpointManager::list(None)`, not the 10 the
+        // CHECKPOINTS statement shows), after EVERY statement: never more than max_checkpoints
+        match sys.list_all() {
+            Ok(all) => {
+                if all.len() > max {
+                    let site = match op {
+                        Op::TDel(..) | Op::TNodeDel(_) | Op::TEmbDel(_) => SITE_CREATE_AUTO,
+                        Op::CkptReal(_) => SITE_CREATE,
+                        Op::Ckpt(_) if mode == Mode::Router || mode == Mode::Auto => SITE_CREATE,
+                        Op::Ckpt(_) => SITE_RETENTION,
+                        Op::Rollback(_) => "query_router.rollback",
+                        Op::CkDel(_) => "tensor_checkpoint.manager_delete",
+                        _ => "tensor_checkpoint.listing",
+                    };
+                    violated = true;
+                    ctx.violation(
+                        &format!("{site}/more_listed_than_max"),
+                        &format!("after statement {op:?} CheckpointManager::list(None) shows {} checkpoints, max_checkpoints is {max}: {:?} (name, created_at; newest first) — retention keeps the newest checkpoints UP TO the configured count", all.len(), all.iter().map(|c| (&c.1, c.2)).collect::<Vec<_>>()),
+                        json!({"stream": stream, "max": max, "ops": trace.clone(), "statement": format!("{op:?}"), "ts": tss, "listed": all.len()}),
+                    );
+                }
+            }
+            Err(e) => {
+                violated = true;
+                ctx.violation("tensor_checkpoint.manager_list/failed", &format!("CheckpointManager::list(None) failed: {e}"), json!({"stream": stream, "ops": trace.clone()}));
+            }
+        }
         let mo = m.ask(&model_line);
         let tr = trace.clone();
         if !ctx.rep.compare(stream, || json!({"ops": tr, "max": max}), &imp, &mo) {
@@ -1614,6 +1827,121 @@ fn stream_router(ctx: &mut Ctx, m: &mut Model, rng: &Rng, cases: usize, mode: Mo
     BLOB_CHUNK.store(0, std::sync::atomic::Ordering::Relaxed);
 }
 
+/// violation classes that say "retention did not hold the listing to max_checkpoints"
+fn is_bound_class(c: &str) -> bool {
+    c.ends_with("/more_listed_than_max") || c.ends_with("/wrong_count")
+}
+
+/// Auto-checkpoints (and real CHECKPOINT statements) AT the retention limit.  Phase A fills the
+/// listing to about `max_checkpoints` with harness-clock checkpoints among data statements; phase B
+/// sends destructive statements through the router text API (`create_auto`, wall clock) and real
+/// `CHECKPOINT` statements (`create`, wall clock), with data statements, rollbacks, deletes,
+/// `CHECKPOINTS LIMIT n` and the full listing in between.  While no more wall-clock checkpoints are
+/// made than `max` (3 cases in 4) every eviction takes a strictly older harness-clock checkpoint, so
+/// the outcome is fully determined; beyond that created_at ties decide (count and loadability stay
+/// fixed, the model follows the observed tie order).
+fn stream_autoret(ctx: &mut Ctx, m: &mut Model, rng: &Rng, cases: usize) {
+    let name = "autoret";
+    let mut r = rng.fork(name);
+    for _ in 0..cases {
+        let max = if r.chance(1, 10) { 10 } else { 1 + r.below(4) as usize };
+        let fill = match r.below(6) {
+            0 => max.saturating_sub(1),
+            1 => max + 1,
+            _ => max,
+        };
+        let mut g = Gen { tables: 3, nodes_hi: 0, edges_hi: 0 };
+        let raw_mix = r.chance(1, 3);
+        let mut ops: Vec<Op> = vec![];
+        let mut n_ck = 0u64;
+        // phase A
+        let len_a = fill + 3 + r.below(8) as usize;
+        let mut left = fill;
+        for i in 0..len_a {
+            if left > 0 && r.chance(left as u64, (len_a - i) as u64) {
+                ops.push(Op::Ckpt(None));
+                left -= 1;
+                n_ck += 1;
+                continue;
+            }
+            for _ in 0..8 {
+                let op = gen_op(&mut r, &mut g, n_ck, raw_mix, Mode::AutoRet);
+                if matches!(op, Op::Ckpt(_)) || (matches!(op, Op::Rollback(_)) && r.chance(1, 2)) {
+                    continue;
+                }
+                ops.push(op);
+                break;
+            }
+        }
+        // phase B
+        let wall_budget = if r.chance(3, 4) { max } else { max + 3 };
+        let mut wall = 0usize;
+        let len_b = 5 + r.below(14) as usize;
+        for _ in 0..len_b {
+            let mut op = if r.chance(1, 4) {
+                match r.below(3) {
+                    0 => Op::TNodeDel(1 + r.below(g.nodes_hi.max(1) + 1)),
+                    1 => Op::TEmbDel(r.below(5)),
+                    _ => Op::TDel(r.below(g.tables), r.below(4) as i64),
+                }
+            } else if r.chance(1, 10) {
+                Op::CkAll
+            } else {
+                gen_op(&mut r, &mut g, n_ck, raw_mix, Mode::AutoRet)
+            };
+            if r.chance(3, 4) {
+                op = match op {
+                    Op::RDel(t, k) => Op::TDel(t, k),
+                    Op::GDelN(i) => Op::TNodeDel(i),
+                    Op::VDel(k) => Op::TEmbDel(k),
+                    o => o,
+                };
+            }
+            if let Op::Ckpt(nm) = op {
+                op = Op::CkptReal(nm);
+            }
+            if matches!(op, Op::TDel(..) | Op::TNodeDel(_) | Op::TEmbDel(_) | Op::CkptReal(_)) {
+                if wall >= wall_budget {
+                    continue;
+                }
+                wall += 1;
+                n_ck += 1;
+            }
+            ops.push(op);
+        }
+        ctx.rep.hit(if wall_budget <= max { "autoret:no_tie_needed" } else { "autoret:tie_regime" });
+        let mut tss = vec![];
+        let mut t = 100u64;
+        for _ in 0..n_ck {
+            if !r.chance(1, 3) {
+                t += 1 + r.below(3);
+            }
+            tss.push(t);
+        }
+        let before: BTreeSet<String> = ctx.per_class.keys().filter(|c| is_bound_class(c)).cloned().collect();
+        let (agreed, violated) = run_case(ctx, m, name, Mode::AutoRet, max, &ops, &tss, true);
+        let fresh_class: Option<String> = ctx.per_class.keys().find(|c| is_bound_class(c) && !before.contains(*c)).cloned();
+        if let (true, Some(class)) = (violated, fresh_class) {
+            // shrink to the fewest statements that still break the bound in that class
+            let small = shrink_list(&ops, &mut |cand: &[Op]| {
+                let mut scratch = Ctx { rep: Report::new(""), per_class: BTreeMap::new() };
+                run_case(&mut scratch, m, name, Mode::AutoRet, max, cand, &tss, false);
+                scratch.per_class.contains_key(&class)
+            });
+            let lines: Vec<String> = small.iter().map(|o| format!("{o:?}")).collect();
+            ctx.rep.note(&format!("{name}: {class} shrunk (max {max}): {}", lines.join("; ")));
+            ctx.rep.violation(&class, "the same class on the shrunk statement list", json!({"stream": name, "max": max, "statements": lines, "ts": tss}));
+        } else if !agreed {
+            let small = shrink_list(&ops, &mut |cand: &[Op]| {
+                let mut scratch = Ctx { rep: Report::new(""), per_class: BTreeMap::new() };
+                let (a, _) = run_case(&mut scratch, m, name, Mode::AutoRet, max, cand, &tss, false);
+                !a
+            });
+            ctx.rep.note(&format!("{name}: shrunk disagreement (max {max}): {}", small.iter().map(|o| format!("{o:?}")).collect::<Vec<_>>().join("; ")));
+        }
+    }
+}
+
 /// hand-written scenarios = the Lean witnesses, replayed on the real code (also run first)
 fn stream_witness(ctx: &mut Ctx, m: &mut Model) {
     const CK: Op = Op::Ckpt(None);
@@ -1694,6 +2022,37 @@ fn stream_witness(ctx: &mut Ctx, m: &mut Model) {
     for (name, ops) in acases {
         ctx.rep.hit(&format!("witness:{name}"));
         run_case(ctx, m, "witness", Mode::Auto, 10, &ops, &[], true);
+    }
+    // auto-checkpoints AT the retention limit (CheckpointManager::create_auto: store, then enforce):
+    // the listing is filled by harness-clock checkpoints, so the wall-clock auto-checkpoint is
+    // strictly the newest and retention has exactly one thing it may do — evict the oldest.  The
+    // shortest history first (max 1: one checkpoint, one destructive statement), then its
+    // neighbours: max 2, below the limit, reaching the limit, two auto-checkpoints in a row, a
+    // destructive statement that matches nothing (no auto-checkpoint), a real CHECKPOINT statement
+    // at the limit and after an auto-checkpoint at the limit, a rollback / a delete in between, the
+    // default max_checkpoints = 10 (where the 11th entry is beyond what CHECKPOINTS shows), and
+    // three wall-clock checkpoints over max 2 (created_at ties: only count and loadability are fixed)
+    let v3 = |k: u64| Op::VPut(k, vec![1, 2, 3]);
+    let mut ten: Vec<Op> = vec![kp(1)];
+    ten.extend(std::iter::repeat(CK).take(10));
+    ten.extend([Op::GNode(1), Op::TNodeDel(1), Op::CkAll, Op::CkTop(11), Op::Rollback(AUTO_NODE_DELETE)]);
+    let rcases: Vec<(&str, usize, Vec<Op>, Vec<u64>)> = vec![
+        ("auto_at_limit_max1", 1, vec![kp(1), CK, Op::GNode(1), Op::TNodeDel(1), Op::CkAll, Op::Rollback(0), Op::Rollback(1)], vec![5]),
+        ("auto_at_limit", 2, vec![kp(1), CK, kp(2), CK, Op::GNode(1), Op::TNodeDel(1), Op::CkAll, Op::CkTop(3), Op::Rollback(0), Op::Rollback(AUTO_NODE_DELETE)], vec![5, 6]),
+        ("auto_below_limit", 3, vec![kp(1), CK, Op::GNode(1), Op::TNodeDel(1), Op::CkAll, Op::Rollback(0)], vec![5]),
+        ("auto_reaches_limit_then_at_limit", 2, vec![kp(1), CK, Op::GNode(1), Op::TNodeDel(1), Op::CkAll, Op::GNode(2), v3(0), Op::TEmbDel(0), Op::CkAll, Op::Rollback(0), Op::Rollback(2)], vec![5]),
+        ("auto_twice_at_limit", 2, vec![v3(0), v3(1), CK, kp(1), CK, Op::TEmbDel(0), Op::CkAll, Op::TEmbDel(1), Op::CkAll, Op::Rollback(1), Op::Rollback(2)], vec![5, 6]),
+        ("auto_delete_rows_at_limit", 2, vec![Op::RCreate(0), Op::RIns(0, 1, 2), Op::RIns(0, 2, 2), CK, kp(1), CK, Op::TDel(0, 3), Op::CkAll, Op::TDel(0, 1), Op::CkAll, Op::Rollback(0), Op::Rollback(1)], vec![5, 6]),
+        ("real_create_at_limit", 2, vec![kp(1), CK, kp(2), CK, kp(3), Op::CkptReal(None), Op::CkAll, Op::Rollback(0), Op::Rollback(NAME0 + 2)], vec![5, 6]),
+        ("auto_at_limit_then_real_create", 2, vec![kp(1), CK, kp(2), CK, v3(0), Op::TEmbDel(0), kp(3), Op::CkptReal(None), Op::CkAll, Op::Rollback(1), Op::Rollback(2)], vec![5, 6]),
+        ("auto_at_limit_after_rollback", 2, vec![kp(1), CK, kp(2), CK, Op::Rollback(NAME0 + 1), kp(3), CK, Op::GNode(1), Op::TNodeDel(1), Op::CkAll, Op::Rollback(3)], vec![5, 6, 7]),
+        ("auto_at_limit_delete_between", 2, vec![kp(1), CK, kp(2), CK, Op::GNode(1), Op::TNodeDel(1), Op::CkDel(1), Op::CkAll, Op::GNode(2), Op::TNodeDel(2), Op::CkAll, Op::Rollback(2)], vec![5, 6]),
+        ("auto_three_wall_clock_over_max2", 2, vec![v3(0), v3(1), v3(2), Op::TEmbDel(0), Op::TEmbDel(1), Op::CkAll, Op::TEmbDel(2), Op::CkAll], vec![]),
+        ("auto_at_default_limit", 10, ten, (5..15).collect()),
+    ];
+    for (name, max, ops, tss) in rcases {
+        ctx.rep.hit(&format!("witness:{name}"));
+        run_case(ctx, m, "witness", Mode::AutoRet, max, &ops, &tss, true);
     }
     // the same regression through the router statements alone: CHECKPOINT '<uuid of c0>', then
     // ROLLBACK TO '<uuid of c0>' (wall-clock seconds: the two usually tie — an id match does not
@@ -2262,7 +2621,7 @@ fn main() {
         "op:rcreate", "op:rdrop", "op:rins", "op:rdel", "op:rhidx", "op:rbidx", "op:gnode", "op:gedge", "op:gdeln",
         "op:gdele", "op:vput", "op:vdel", "op:vbuild", "op:kput", "op:kdel", "op:ckpt", "op:rollback",
         "op:ckpt_named", "op:rollback_by_id", "op:ckdel", "op:cktop", "rollback:listed_id_also_a_name", "rollback:unlisted_id_by_name", "ckdel:listed_id_also_a_name", "gen:shadow_pair_injected",
-        "rollback:by_shared_or_foreign_name", "blob_chunk:default", "blob_chunk:small_shared", "text_api:checked_after_rollback", "text_api:checked_at_checkpoint", "directed:dense_embedding", "directed:undecodable_image", "directed:dense_vector_engine_exact", "op:text_delete", "op:text_node_delete", "op:text_embed_delete", "auto_checkpoint:created", "slab:set", "slab:del", "slab:clear", "slab:compact", "slab:reload",
+        "rollback:by_shared_or_foreign_name", "blob_chunk:default", "blob_chunk:small_shared", "text_api:checked_after_rollback", "text_api:checked_at_checkpoint", "directed:dense_embedding", "directed:undecodable_image", "directed:dense_vector_engine_exact", "op:text_delete", "op:text_node_delete", "op:text_embed_delete", "auto_checkpoint:created", "op:ckpt_real", "op:ckall", "auto_checkpoint:at_retention_limit", "auto_checkpoint:evicted_one_at_limit", "create:at_retention_limit", "ckall:at_retention_limit", "autoret:no_tie_needed", "autoret:tie_regime", "slab:set", "slab:del", "slab:clear", "slab:compact", "slab:reload",
         "res:ok", "res:id", "res:count", "res:err notfound", "res:err exists", "res:err storage",
         "retention:tie_at_boundary", "retention:incremental", "retention:bulk", "raw:restore",
         "directed:tensor_store.restore_from_bytes/relational_tables_lost",
@@ -2304,6 +2663,8 @@ fn main() {
     mark("manager", &mut laps);
     stream_router(&mut ctx, &mut m, &rng, 15 * scale, Mode::Auto, "auto");
     mark("auto", &mut laps);
+    stream_autoret(&mut ctx, &mut m, &rng, 25 * scale);
+    mark("autoret", &mut laps);
     stream_retention(&mut ctx, &mut m, &rng, 300 * scale);
     mark("retention", &mut laps);
     stream_store_raw(&mut ctx, &mut m, &rng, 150 * scale);
@@ -2312,7 +2673,7 @@ fn main() {
     mark("slab", &mut laps);
     ctx.rep.note(&format!("stream wall times: {}", laps.join(", ")));
     ctx.rep.note(&format!("harness wall time {:.1}s; model lines {}", t0.elapsed().as_secs_f64(), m.lines));
-    ctx.rep.note("created_at of router-made checkpoints is wall-clock seconds and cannot be set from outside: the router stream never lets retention trigger (max 10, ≤5 checkpoints); retention with controlled and tied timestamps is exercised through CheckpointStorage::store + RetentionManager::enforce (what CheckpointManager::create calls) in the manager and retention streams");
+    ctx.rep.note("created_at of router-made checkpoints is wall-clock seconds and cannot be set from outside: the router and auto streams never let retention trigger (max 10, fewer checkpoints); retention with controlled and tied timestamps is exercised through CheckpointStorage::store + RetentionManager::enforce in the manager and retention streams; the REAL creation paths at the limit — CheckpointManager::create_auto (destructive text statements) and CheckpointManager::create (CHECKPOINT) — run in the autoret stream and its directed cases over a listing filled with harness-clock checkpoints, which every wall-clock checkpoint is strictly newer than; the bound is judged on CheckpointManager::list(None) after every statement of every stream");
     ctx.rep.note("the by_tag listing order among equal created_at is a per-call hash order; the model takes it as an input reconstructed from the observed outcome (kept ids first), so a disagreement there means the outcome is not explainable by any order");
     let _ = BTreeSet::<u8>::new();
     ctx.rep.write(&args.out);
